@@ -364,6 +364,24 @@ class _Guards:
                     self.n += 1
                     changed = True
                     break
+        # G6: `if T: <block that always leaves>` + rest  ->  `if T: <block> else: rest` when the reference has T as the head of an if/else
+        changed = True
+        while changed:
+            changed = False
+            for i, s in enumerate(block):
+                if isinstance(s, ast.If) and not s.orelse and _terminal(s.body) and block[i + 1:] and nnf_text(s.test) in self.known_ifelse \
+                        and not any(isinstance(x, ast.NamedExpr) for x in ast.walk(s.test)):
+                    rest = block[i + 1:]
+                    # (what follows the chain in the reference - a final `return x` - stays outside when the rest ends with a plain if-chain)
+                    tail_keep = []
+                    if kind == "return" and isinstance(rest[-1], ast.Return) and len(rest) > 1 and all(isinstance(x, ast.If) for x in rest[:-1]):
+                        tail_keep, rest = [rest[-1]], rest[:-1]
+                    s.orelse = rest
+                    block[i + 1:] = tail_keep
+                    self.n += 1
+                    changed = True
+                    self._block(s.orelse, kind if not tail_keep else None)
+                    break
         # G5: an if/else in tail position whose test the reference knows only as a plain `if` (a guard clause there):
         #     `if T: A else: B`  ->  `if T: A; return|continue` + B   (or with the negated test, whichever the reference has)
         if kind is not None and block and isinstance(block[-1], ast.If) and block[-1].orelse and not (kind == "return" and False):
@@ -389,6 +407,18 @@ class _Guards:
         for i, s in enumerate(block):
             if not isinstance(s, ast.If) or s.orelse:
                 continue
+            # a whole chain `if a: if b: if c: X` -> `if a and b and c: X` when the reference knows that conjunction
+            chain, cur = [s.test], s
+            while len(cur.body) == 1 and isinstance(cur.body[0], ast.If) and not cur.body[0].orelse:
+                cur = cur.body[0]
+                chain.append(cur.test)
+            if len(chain) > 2:
+                conj = _FlattenBoolOps().visit(ast.BoolOp(op=ast.And(), values=[copy.deepcopy(t) for t in chain]))
+                if nnf_text(conj) in self.known and nnf_text(s.test) not in self.known:
+                    raw = self.raw.get(nnf_text(conj))
+                    block[i] = ast.copy_location(ast.If(test=ast.parse(raw, mode="eval").body if raw else conj, body=cur.body, orelse=[]), s)
+                    self.n += 1
+                    continue
             # nested `if a: if b: X` -> `if a and b: X` when the reference knows the conjunction
             if len(s.body) == 1 and isinstance(s.body[0], ast.If) and not s.body[0].orelse:
                 conj = ast.BoolOp(op=ast.And(), values=[s.test, s.body[0].test])
@@ -508,7 +538,12 @@ class _Renamer(ast.NodeTransformer):
 def _callee_key(call: ast.Call, cls_prefix: str, scope_prefix: str):
     f = call.func
     if isinstance(f, ast.Name):
-        return [scope_prefix + f.id, f.id] if scope_prefix else [f.id]
+        # a nested helper of this function, of any enclosing function (a sibling nested def), or a module-level one
+        out, parts = [], scope_prefix.rstrip(".").split(".") if scope_prefix else []
+        while parts:
+            out.append(".".join(parts) + "." + f.id)
+            parts.pop()
+        return out + [f.id]
     if isinstance(f, ast.Attribute) and isinstance(f.value, ast.Name) and f.value.id in ("self", "cls") and cls_prefix:
         return [cls_prefix + f.attr]
     return []
@@ -1048,11 +1083,19 @@ class Inliner:
 _STABLE_BUILTINS = ("id", "type", "isinstance")  # results depend only on the identity / class of the argument objects
 
 
+# conversions / measures whose result is an immutable value determined by their (unchanged) arguments: evaluating them once or
+# several times gives the same value
+_VALUE_BUILTINS = ("int", "float", "str", "bool", "len", "abs", "min", "max", "repr", "round", "tuple", "frozenset")
+
+
 def _pure(e) -> bool:
+    """evaluating the expression again gives an equal, interchangeable value and has no effect: no call (but a few builtins on pure
+    arguments), no await / yield, and no display that creates a NEW mutable object each time ([] {} set / list / dict comprehensions)"""
     for n in ast.walk(e):
-        if isinstance(n, (ast.Await, ast.Yield, ast.YieldFrom, ast.NamedExpr)):
+        if isinstance(n, (ast.Await, ast.Yield, ast.YieldFrom, ast.NamedExpr, ast.List, ast.Dict, ast.Set, ast.ListComp, ast.DictComp, ast.SetComp,
+                          ast.GeneratorExp, ast.Lambda)):
             return False
-        if isinstance(n, ast.Call) and not (isinstance(n.func, ast.Name) and n.func.id in _STABLE_BUILTINS and not n.keywords):
+        if isinstance(n, ast.Call) and not (isinstance(n.func, ast.Name) and n.func.id in _STABLE_BUILTINS + _VALUE_BUILTINS and not n.keywords):
             return False
     return True
 
@@ -1398,7 +1441,7 @@ def normalise_module(tree: ast.Module, modname: str) -> dict:
     return stats
 
 
-def loops_to_comprehensions(fn, comp_locals: dict) -> int:
+def loops_to_comprehensions(fn, comp_locals: dict, known_locals=None) -> int:
     """`x = {}` + `for t in it: [if c:] x[k] = v` (also `[]` with append, `set()` with add) is the comprehension
     `x = {k: v for t in it if c}` when the reference binds x by exactly that kind of comprehension, the loop variables are not
     read outside the loop and nothing in the loop mentions x or suspends."""
@@ -1418,7 +1461,15 @@ def loops_to_comprehensions(fn, comp_locals: dict) -> int:
                 want = comp_locals.get(x)
                 empty = ast.unparse(a.value)
                 kind = {"{}": "DictComp", "dict()": "DictComp", "[]": "ListComp", "list()": "ListComp", "set()": "SetComp"}.get(empty)
-                if kind is None or want != kind:
+                into_next = None
+                if kind is not None and want is None and known_locals is not None and x not in known_locals and i + 1 < len(block):
+                    # a NEW accumulator read exactly once, by the statement right after the loop: the comprehension goes there
+                    others = [n for n in ast.walk(fn) if isinstance(n, ast.Name) and n.id == x and not any(n is y for y in ast.walk(lp)) and n is not a.targets[0]]
+                    nxt = block[i + 1]
+                    if len(others) == 1 and isinstance(others[0].ctx, ast.Load) and any(others[0] is y for y in ast.walk(nxt)) \
+                            and (_whole_value(nxt, others[0]) or _used_before_any_effect(nxt, others[0])):
+                        into_next = (nxt, others[0])
+                if kind is None or (want != kind and into_next is None):
                     continue
                 conds, inner = [], lp.body
                 while len(inner) == 1 and isinstance(inner[0], ast.If) and not inner[0].orelse:
@@ -1453,8 +1504,14 @@ def loops_to_comprehensions(fn, comp_locals: dict) -> int:
                     comp = ast.ListComp(elt=elt[0], generators=[gen])
                 else:
                     comp = ast.SetComp(elt=elt[0], generators=[gen])
-                a.value = comp
-                block.remove(lp)
+                if into_next is not None:
+                    _replace_node(into_next[0], into_next[1], comp)
+                    block.remove(lp)
+                    block.remove(a)
+                    i -= 1
+                else:
+                    a.value = comp
+                    block.remove(lp)
                 n_done += 1
     if n_done:
         ast.fix_missing_locations(fn)
@@ -1511,7 +1568,8 @@ def normalise_temporaries(tree: ast.Module, modname: str) -> int:
             continue
         params = {a.arg for a in ast.walk(fn) if isinstance(a, ast.arg)}
         n += any_tests_to_loops(fn, set(r.get("if_tests", {}).get(key, [])))
-        n += loops_to_comprehensions(fn, {x[0]: x[2] for x in locs.get(key, []) if x[1] == "Assign" and x[2] in ("DictComp", "ListComp", "SetComp")})
+        n += loops_to_comprehensions(fn, {x[0]: x[2] for x in locs.get(key, []) if x[1] == "Assign" and x[2] in ("DictComp", "ListComp", "SetComp")},
+                                     {x[0] for x in locs.get(key, [])} | params)
         n += substitute_new_temporaries(fn, {x[0] for x in locs.get(key, [])} | params)
     return n
 
